@@ -53,9 +53,9 @@ func (*prop) Cases(seed int64, tier string) []core.Case {
 	nc, n := 16, 10
 	var cs []core.Case
 	if tier == "thorough" {
-		nc, n = 64, 24
-		for i := 0; i < 16; i++ {
-			cs = append(cs, core.MkCase("strace", params{N: 6, Strace: true}))
+		nc, n = 64, 64
+		for i := 0; i < 32; i++ {
+			cs = append(cs, core.MkCase("strace", params{N: 8, Strace: true}))
 		}
 	}
 	for i := 0; i < nc; i++ {
